@@ -13,7 +13,7 @@ use serde::{Deserialize, Serialize};
 pub fn def() -> PropDef {
     PropDef {
         id: "C17",
-        rule: "generated histories on one encoder or decoder of every family x engine: a first configuration, then 1..6 steps, each a reset (or into_parts -> new(Some(work)) into another family/engine) to a generated target followed by complete rounds (adds, encode/decode, results read through the borrowing accessors, result dropped). A counting global allocator records every allocation and growing reallocation made by the thread inside the measured region 'reset/new-with-work + adds + encode/decode + read + drop'. need(cfg) is *measured* on a freshly built object of the same family (the sizes of everything its constructor allocates, engine excluded). Every history is executed at three scales: as generated, with every shard size x3, and with every count x2. oracle (metamorphic): in every region whose target fits (need(target) <= the element-wise maximum need over the object's past, at both scales) and in every second or later round of a configuration, the number of bytes allocated must be the same at both scales, i.e. nothing that is allocated there may grow with the shard size or with the counts (a fixed-size scratch buffer is not shard-proportional and is tolerated; it is reported in the class histogram). Every measured buffer is >= 16 KiB. non-trivial: target differs from the previous configuration and fits; distinct by full case",
+        rule: "generated histories on one encoder or decoder of every family x engine: a first configuration, then 1..6 steps, each a reset (or into_parts -> new(Some(work)) into another family/engine) to a generated target followed by complete rounds (adds, encode/decode, results read through the borrowing accessors, result dropped). A counting global allocator records every allocation and growing reallocation made by the thread inside the measured region 'reset/new-with-work + adds + encode/decode + read + drop'. need(cfg) is *measured* on a freshly built object of the same family (the sizes of everything its constructor allocates, engine excluded). Every history is executed at three scales: as generated, with every shard size x3, and with every count x2. oracle (metamorphic): in every region whose target fits (need(target) <= the element-wise maximum need over the object's past, at both scales) and in every second or later round of a configuration, the number of bytes allocated must be the same at both scales, i.e. nothing that is allocated there may grow with the shard size or with the counts (a fixed-size scratch buffer is not shard-proportional and is tolerated; it is reported in the class histogram). Every measured buffer is >= 16 KiB. Part big_resets: reset-only sawtooth histories (largest configuration first, then fractions of it) whose largest working space is drawn log-uniformly from 16 KiB to 512 MiB (quick) / 1 GiB (thorough), executed as generated and with doubled shard sizes, same oracle (byte thresholds in fast paths are invisible to small configurations). non-trivial: target differs from the previous configuration and fits; distinct by full case",
         assumptions: &[
             "an object holds at least the maximum it ever needed (Vec never shrinks); capacity may be larger, which only makes the check claim 'fits' less often than true",
             "all lookup tables and engines are initialised before measuring",
@@ -63,7 +63,118 @@ fn strategy(_t: Tier) -> BoxedStrategy<AllocCase> {
 }
 
 fn parts() -> Vec<Box<dyn PartDyn>> {
-    vec![Box::new(GenPart { name: "alloc", quick: 1_500, thorough: 100_000, shrink_iters: 400, strat: strategy, check })]
+    vec![
+        Box::new(GenPart { name: "alloc", quick: 1_000, thorough: 100_000, shrink_iters: 400, strat: strategy, check }),
+        Box::new(GenPart { name: "big_resets", quick: 16, thorough: 600, shrink_iters: 30, strat: big_strategy, check: check_big }),
+    ]
+}
+
+// ----------------------------------------------------------------------
+// reset-only sawtooth histories over working spaces up to ~1 GiB: size-dependent fast paths
+// (thresholds in bytes) are invisible to the small configurations of the part above
+
+#[derive(Clone, Debug, PartialEq, Eq, Hash, Serialize, Deserialize)]
+pub struct BigCase {
+    pub dec: bool,
+    pub kind: Kind,
+    pub eng: Eng,
+    pub bounded: usize,
+    pub other: usize,
+    pub flip: bool,
+    /// log2 of the largest working space in bytes, times 4
+    pub top_q: u8,
+    /// every step's working space as a fraction (numerator over 64) of the largest; the object starts at the largest
+    pub fractions: Vec<u8>,
+}
+
+fn big_strategy(t: Tier) -> BoxedStrategy<BigCase> {
+    // sawtooth: largest first, then down and up again below the maximum, so that every case contains
+    // resets that fit with small and with large growth relative to what the buffer currently uses
+    let max_q = t.pick(4 * 29u8, 4 * 30u8); // 512 MiB quick, 1 GiB thorough (before the x2 scale)
+    let frac = prop_oneof![Just(64u8), Just(48), Just(32), Just(16), Just(1), Just(0), 0u8..=64];
+    (any::<bool>(), gen::kind_rate(), gen::engine(), prop_oneof![1usize..=8, 1usize..=300], prop_oneof![1usize..=8, 1usize..=600], any::<bool>(), prop_oneof![1 => (4 * 14u8)..=(4 * 22u8), 4 => (4 * 22u8)..=max_q], prop::collection::vec(frac, 2..=5))
+        .prop_map(|(dec, kind, eng, bounded, other, flip, top_q, fractions)| BigCase { dec, kind, eng, bounded, other, flip, top_q, fractions })
+        .boxed()
+}
+
+fn big_cfg_of(c: &BigCase, frac: u8, scale: usize) -> Cfg {
+    let raw = RawCfg { bounded: c.bounded, other: c.other, flip: c.flip, size: 2 };
+    let cfg = raw.orient(c.kind);
+    let positions = cfg.positions(c.kind); // upper bound of the working positions of either codec
+    let top = 2f64.powf(c.top_q as f64 / 4.0);
+    let bytes = (top * frac as f64 / 64.0) as usize;
+    let b = ((bytes / positions.max(1)) / 2 * 2).max(2) * scale;
+    Cfg { k: cfg.k, r: cfg.r, b }
+}
+
+/// global budget so that parallel workers do not hold tens of GiB at once
+fn with_memory_budget<T>(bytes: usize, f: impl FnOnce() -> T) -> T {
+    use std::sync::{Condvar, Mutex};
+    static BUDGET: Mutex<usize> = Mutex::new(10 << 30);
+    static CV: Condvar = Condvar::new();
+    let want = bytes.min(10 << 30);
+    {
+        let mut g = BUDGET.lock().unwrap();
+        while *g < want {
+            g = CV.wait(g).unwrap();
+        }
+        *g -= want;
+    }
+    struct Give(usize);
+    impl Drop for Give {
+        fn drop(&mut self) {
+            *BUDGET.lock().unwrap() += self.0;
+            CV.notify_all();
+        }
+    }
+    let _give = Give(want);
+    f()
+}
+
+fn check_big(c: &BigCase, st: &mut Stats) -> CheckResult {
+    warm_tables();
+    let top = 2f64.powf(c.top_q as f64 / 4.0) as usize;
+    // object + fresh object for need(), at scale 2
+    with_memory_budget(top * 4 + (1 << 20), || check_big_inner(c, st))
+}
+
+fn check_big_inner(c: &BigCase, st: &mut Stats) -> CheckResult {
+    let mut obs: Vec<Vec<(bool, Seen, Cfg)>> = Vec::new();
+    for scale in [1usize, 2] {
+        let first = big_cfg_of(c, 64, scale);
+        let mut held = need(c.dec, c.kind, c.eng, first)?;
+        let mut obj = Obj::make(c.dec, c.kind, c.eng, first).map_err(|e| format!("construction of {first:?} failed: {e:?}"))?;
+        let mut v = Vec::new();
+        for &f in &c.fractions {
+            let target = big_cfg_of(c, f, scale);
+            let n = need(c.dec, c.kind, c.eng, target)?;
+            let fits = fits_in(&n, &held);
+            let (res, seen) = measure(|| obj.apply(&crate::history::Call::Reset(target.k, target.r, target.b)));
+            let out = res?;
+            ensure!(out.is_ok(), "reset to supported {target:?} failed: {}", out.brief());
+            v.push((fits, seen, target));
+            hold_more(&mut held, &n);
+        }
+        obs.push(v);
+    }
+    let mut any_fit = false;
+    for (i, (a, b)) in obs[0].iter().zip(&obs[1]).enumerate() {
+        if a.0 && b.0 {
+            any_fit = true;
+            if b.1.bytes > a.1.bytes {
+                fail!(
+                    "reset #{} to {:?} ({} {}): the target needs no more working space than the object already holds, yet reset allocates {} bytes (largest block {}), and {} bytes when every shard size is doubled: working space the object owns is being re-allocated",
+                    i + 1, a.2, c.kind.name(), c.eng.name(), a.1.bytes, a.1.max, b.1.bytes
+                );
+            }
+        }
+        st.classf("fits", a.0);
+    }
+    st.classf("top_MiB_log2", c.top_q as i64 / 4 - 20);
+    if any_fit {
+        st.nontrivial_case("big_resets", c);
+    }
+    Ok(())
 }
 
 fn warm_tables() {
